@@ -3,3 +3,8 @@ open BsVerif.Tracer
 #print axioms C09_table_ops_wf
 #print axioms C09_bookkeeping_wf
 #print axioms C09_bookkeeping_ops_only
+#print axioms C09_only_cont_stopped_marks_running
+#print axioms C09_prompt_is_quiescent
+#print axioms C09_group_stop_coverage
+#print axioms C09_second_round_noop
+#print axioms C09_rewind_exact
